@@ -28,6 +28,16 @@ def reach(fx, f, limit=300):
     return seen
 
 
+def lookup_failed(fn, atom, pol, container):
+    """(atom, pol) states that a find() on `container` returned end(): `it == c.end()` true or `it != c.end()` false."""
+    c = q.cmp_atom(atom)
+    if not c or c[0] not in ('==', '!='):
+        return False
+    if not any(q.render(fn, x) == container + '.end()' for x in (c[1], c[2])):
+        return False
+    return (c[0] == '==') == bool(pol)
+
+
 def check(run):
     fx = run.fx
     run.clause('stop() reaches tcp::socket::close(error_code&) on the listen socket')
@@ -47,7 +57,8 @@ def check(run):
             run.check(bool(w), 'R4', 'stop-sets-flag', H + '::stop', st.loc(), 'stop() does not set m_close (the next close_connection would accept again)', 'm_close = true')
     cc = fx.fn1(H + '::close_connection')
     run.touch(cc)
-    acc = [c for c in cc.calls() if (q.callee_name(c) or '').endswith('acceptor::async_accept')]
+    accf = q.flat_calls(cc, lambda g_, c: (q.callee_name(c) or '').endswith('acceptor::async_accept'))     # directly or through an accept helper
+    acc = [x.anchor for x in accf]
     run.check(bool(acc) and all(any(q.render(cc, a) == 'm_close' and not p for a, p in q.guards_at(cc, c)) for c in acc), 'R5', 'no-accept-after-stop', H + '::close_connection', cc.loc(),
               'close_connection re-arms accept even when stopping', 'accept re-armed only when !m_close')
     closes = [c for c in cc.calls() if (c.get('callee') or '').split('::')[-1] == 'close' and q.render(cc, c.get('obj')) == 'm_connection']
@@ -78,12 +89,12 @@ def check(run):
                   'after a request was parsed a path returns without starting a response (other than the stall path), or more than one write is started', 'exactly one async_write on every path except the stall return')
         for r in stall:
             g = [(q.render(orr, a), p) for a, p in q.guards_at(orr, r)]
-            run.check(any('m_handlers.end()' in t and p for t, p in g), 'R5', 'stall-only-unregistered', H + '::on_read', orr.loc(r), 'the stall return is not under "no handler registered"', 'stall path lies under the failed handler lookup')
+            run.check(any(lookup_failed(orr, a, p, 'm_handlers') for a, p in q.guards_at(orr, r)), 'R5', 'stall-only-unregistered', H + '::on_read', orr.loc(r), 'the stall return is not under "no handler registered"', 'stall path lies under the failed handler lookup')
         er = [c for c in orr.calls() if (c.get('callee') or '').endswith('::erase') and q.render(orr, c.get('obj')) == 'm_recv_buffer']
         run.check(bool(er) and all(q.precedes(orr, parse[0], c) and 'req_len' in q.render(orr, c) for c in er), 'R4', 'request-consumed', H + '::on_read', orr.loc(),
                   'the parsed request is not removed from the receive buffer (it would be answered again)', 'erase(begin, begin + req_len) after the parse')
         w404 = [n for n in orr.all_nodes() if n['k'] == 'call' and q.callee_name(n) == 'sim::send_response' and q.int_value(n['args'][0]) == 404]
-        run.check(bool(w404) and all(any('m_handlers.end()' in q.render(orr, a) and p for a, p in q.guards_at(orr, n)) for n in w404), 'R5', '404-for-unknown', H + '::on_read', orr.loc(), '404 is not produced under the failed handler lookup', '404 only when no handler is registered')
+        run.check(bool(w404) and all(any(lookup_failed(orr, a, p, 'm_handlers') for a, p in q.guards_at(orr, n)) for n in w404), 'R5', '404-for-unknown', H + '::on_read', orr.loc(), '404 is not produced under the failed handler lookup', '404 only when no handler is registered')
         nl = [c for c in orr.calls() if q.callee_name(c) == H + '::read']
         g_ok = all(any(q.cmp_atom(a) and q.render(orr, q.cmp_atom(a)[1]) == 'req_len' and q.cmp_atom(a)[0] == '<' and p for a, p in q.guards_at(orr, c)) for c in nl)
         run.check(bool(nl) and g_ok, 'R5', 'incomplete-reads-more', H + '::on_read', orr.loc(), 'an incomplete request does not lead to another read', 'req_len < 0 -> read()')
